@@ -49,6 +49,19 @@ def gen(rng, tier):
     if rng.random() < 0.6 and not any(v["t"] == "FiatVerified" for v in R["pack"]["ver"]):
         R["pack"]["ver"].append({"t": "FiatVerified", "salt": rng.randrange(1000), "pct": rng.choice([10, 25, 50]), "ignore_parent": rng.random() < 0.3})
     R["pack"]["iterative"] = R["pack"]["iterative"] and rng.random() < 0.5
+    if rng.random() < 0.35:
+        # a (parent, child) key that arrives first as a one-way and then as a two-way rule (or the other
+        # way round): the default DB replaces the stored rule, the forget DB has to do the same
+        w = R["world"]
+        if w["patterns"]:
+            base = rng.choice(w["patterns"])
+            w["patterns"].append(list(base) + [rng.choice(w["alphabet"])])
+        first = rng.random() < 0.5
+        R["pack"]["initial"] = [x for x in R["pack"]["initial"] if x["t"] != "ReducePatterns"] + [
+            {"t": "ReducePatterns", "two_way": first, "ignore_parent": False},
+            {"t": "ReducePatterns", "two_way": not first, "ignore_parent": False},
+        ]
+        R["pack"]["inferral"] = [x for x in R["pack"]["inferral"] if x["t"] != "ReducePatterns"]
     R["query_policy"] = rng.choice(["every", "subset", "end"])
     R["query_seed"] = rng.randrange(1 << 30)
     return R
